@@ -78,9 +78,26 @@ where
             loop {
                 let request = recv_request.recv().await?;
 
-                frame
+                let written = frame
                     .write_async::<MessageRequest<S>, _>(Pin::new(&mut stdin), &request)
-                    .await?;
+                    .await;
+                if let Err(err) = written {
+                    // The child is gone: it died after the previous request,
+                    // or while reading this one (for example by running out of
+                    // memory on a large payload). Report that to the caller
+                    // and start a new child for the next request, instead of
+                    // ending this task and failing every later request.
+                    let response = match err {
+                        Error::WriteFailed(_) => Err(Error::Crashed),
+                        err => Err(err),
+                    };
+                    send_response
+                        .send(response)
+                        .await
+                        .map_err(|_| Error::Send("response to caller"))?;
+                    let _ = process.kill();
+                    break;
+                }
 
                 let interrupt = async {
                     ctrlc.next().await;
